@@ -538,13 +538,37 @@ func c13BadOpen(e *Env, s *Sched, c *C13Case, a C13Actor, tag string, viol func(
 			}
 			return nil
 		}
-		_, err = wt.Open(p)
+		var hdb *wt.Whisper
+		hdb, err = wt.Open(p)
 		s.FlockFault = nil
 		if !fired {
+			if hdb != nil {
+				hdb.Close()
+			}
 			e.Skip("flock-fault-not-reached")
 			return
 		}
 		what = "Open whose lock request failed with " + ferr.Error()
+		if err == nil && hdb != nil {
+			// the Open went on (an interrupted request may be repeated): the handle
+			// it returned must hold the lock like any other default-option handle
+			locked := true
+			if f, oerr := os.OpenFile(p, os.O_RDONLY, 0); oerr == nil {
+				if syscall.Flock(int(f.Fd()), syscall.LOCK_EX|syscall.LOCK_NB) == nil {
+					locked = false
+					syscall.Flock(int(f.Fd()), syscall.LOCK_UN)
+				}
+				f.Close()
+			}
+			hdb.Close()
+			e.Fault("F11.failing-lock-request/" + a.Hostile)
+			if !locked {
+				viol("C13.exclusive", "%s returned a handle all the same, and the file is not locked: a non-blocking exclusive flock by another descriptor succeeds while the handle is open", what)
+				return
+			}
+			e.Probe("lock-request-repeated-after-a-failure")
+			return
+		}
 	case "dir":
 		os.Mkdir(p, 0o755)
 		_, err = wt.Open(p, wt.WithOpenFileFlag(os.O_RDONLY))
